@@ -242,7 +242,7 @@ def build() -> Check:
             "sequence(s), complete frame + flag + 7D, header announcing 2047 octets, truncated second frame, >2047 flag-free octets, flags, "
             "7E/7D-dense bytes) followed by 2..40 sequence-numbered clean frames delimited by shared or double flags (flag-free without "
             "stuffing; with stuffing also frames near the 2047-octet maximum whose payload is dense in 7E/7D), x splittings x 4 configurations; must-deliver set = all but the first (stuffing) / frames starting more than "
-            "2047 + own length octets after the noise (no stuffing). p1: 19 noise families (random, identification line only / with "
+            "2047 + own length octets after the noise (no stuffing). p1: 20 noise families (compound = two families + a short tail, each part in its own read() call; random, identification line only / with "
             "data lines / without LF, '/' + >8 KiB without LF, >8 KiB without LF, truncated readout, readout tail, lone end line, "
             "non-ASCII identification, identification + >8 KiB line, many identification lines, complete readouts with a non-ASCII / non-hexadecimal "
             "end line or non-ASCII data, '!' inside the identification line, seeded sequences of structural tokens) followed by 2..40 clean readouts back to "
